@@ -180,17 +180,21 @@ Definition cur_ok (s : st) : Prop :=
   | PPick _ => curr s = None
   | _ => True
   end.
-Definition partial_ok (s : st) : Prop :=
+Definition partial_ok (single : bool) (s : st) : Prop :=
   let b := getb (cur_buf s) (bufs s) in
   match pc s with
   | PWord r => read_at (b_size b) 8 (b_data b) = le64 (r_time r)
   | PBump r => read_at (b_size b) 16 (b_data b) = hdr r
-  | PBumpPl r => read_at (b_size b) (length (r_pl r)) (b_data b) = r_pl r
+  | PCopy r => if single then read_at (b_size b) 16 (b_data b) = hdr r else True
+  | PBumpPl r =>
+      if single then read_at (b_size b) 16 (b_data b) = hdr r
+                     /\ read_at (b_size b + 16) (length (r_pl r)) (b_data b) = r_pl r
+      else read_at (b_size b) (length (r_pl r)) (b_data b) = r_pl r
   | PZero _ | PStart _ => b_size b = 0
   | _ => True
   end.
-Definition extra (s : st) : list N :=
-  match pc s with PCopy r | PBumpPl r => hdr r | _ => [] end.
+Definition extra (single : bool) (s : st) : list N :=
+  if single then [] else match pc s with PCopy r | PBumpPl r => hdr r | _ => [] end.
 Definition inflight (s : st) : list rec :=
   match pc s with
   | PIdle => []
@@ -198,14 +202,14 @@ Definition inflight (s : st) : list rec :=
   | PCopy r | PBumpPl r => [r]
   end.
 
-Record Inv (recs : list rec) (s : st) : Prop := {
+Record Inv (single : bool) (recs : list rec) (s : st) : Prop := {
   i_nodup : NoDup (pend s);
   i_rec : forall i, In i (pend s) -> i < length (bufs s) /\ f_rec (b_flag (getb i (bufs s))) = true;
   i_free : forall i, f_rec (b_flag (getb i (bufs s))) = false -> b_size (getb i (bufs s)) = 0;
   i_cur : cur_ok s;
-  i_part : partial_ok s;
+  i_part : partial_ok single s;
   i_shl : shl_after (chan s) (shl s) = announced s;
-  i_content : exists bs, Matches (done s) bs /\ content s = bs ++ extra s;
+  i_content : exists bs, Matches (done s) bs /\ content s = bs ++ extra single s;
   i_recs : done s ++ inflight s ++ todo s = recs
 }.
 
@@ -232,7 +236,7 @@ Proof.
   - destruct m0; apply IH.
 Qed.
 
-Lemma init_inv recs : Inv recs (init recs).
+Lemma init_inv single recs : Inv single recs (init recs).
 Proof.
   constructor; cbn.
   - constructor; [intros []|constructor].
@@ -241,7 +245,7 @@ Proof.
   - exact I.
   - exact I.
   - reflexivity.
-  - exists []. split; [constructor|reflexivity].
+  - exists []. split; [constructor|destruct single; reflexivity].
   - reflexivity.
 Qed.
 
@@ -255,7 +259,7 @@ Proof. unfold committed. intros ->. reflexivity. Qed.
 Lemma NoDup_app_remove_mid {A} (a : list A) x b : NoDup (a ++ x :: b) -> NoDup (a ++ b) /\ ~ In x (a ++ b).
 Proof. intro H. split; [eapply NoDup_remove_1; eauto | eapply NoDup_remove_2; eauto]. Qed.
 
-Lemma rstep_inv recs s : Inv recs s -> Inv recs (rstep s) /\ content (rstep s) = content s.
+Lemma rstep_inv single recs s : Inv single recs s -> Inv single recs (rstep s) /\ content (rstep s) = content s.
 Proof.
   intros HI.
   unfold rstep. destruct (chan s) as [|[i|i] ch] eqn:Ech;
@@ -302,16 +306,16 @@ Proof.
       * rewrite Hc. exact Hcont.
 Qed.
 
-Lemma partial_ok_ext s s' :
+Lemma partial_ok_ext single s s' :
   pc s' = pc s -> curr s' = curr s ->
   (forall c, curr s = Some c -> getb c (bufs s') = getb c (bufs s)) ->
-  cur_ok s -> partial_ok s -> partial_ok s'.
+  cur_ok s -> partial_ok single s -> partial_ok single s'.
 Proof.
   intros Hpc Hc Hb Hcur Hp. unfold partial_ok, cur_ok, cur_buf in *. rewrite Hpc, Hc.
   destruct (pc s); try exact I; destruct Hcur as [c Ec]; rewrite Ec in *; rewrite (Hb c eq_refl); exact Hp.
 Qed.
 
-Lemma wstep_inv recs s : Inv recs s -> Inv recs (wstep s) /\ content (wstep s) = content s.
+Lemma wstep_inv single recs s : Inv single recs s -> Inv single recs (wstep s) /\ content (wstep s) = content s.
 Proof.
   intros HI. unfold wstep. destruct (wl s) as [|i w] eqn:Ewl; [split; [exact HI|reflexivity]|].
   destruct HI as [Hnd Hrec Hfree Hcur Hpart Hshl Hcont Hrecs].
@@ -340,7 +344,7 @@ Proof.
     + rewrite getb_upd_same by exact Hil. reflexivity.
     + rewrite getb_upd_other by exact Hne. apply Hfree.
   - unfold s', write_one, cur_ok in *. simp. exact Hcur.
-  - apply (partial_ok_ext s); try reflexivity; try assumption.
+  - apply (partial_ok_ext single s); try reflexivity; try assumption.
     intros c Ec. apply Hb. unfold rest, curl. rewrite Ec. apply in_or_app. right. apply in_or_app. right. left. reflexivity.
   - unfold s', write_one, announced, curl in *. simp. exact Hshl.
   - rewrite Hc. unfold s', write_one, extra. simp. exact Hcont.
@@ -350,8 +354,8 @@ Qed.
 (* ------------------------------------------------------------------ producer steps *)
 Definition pre (s : st) : list N := file s ++ body (bufs s) (others s).
 
-Lemma cur_facts recs s c :
-  Inv recs s -> curr s = Some c ->
+Lemma cur_facts single recs s c :
+  Inv single recs s -> curr s = Some c ->
   pend s = others s ++ [c] /\ ~ In c (others s) /\ NoDup (others s) /\ c < length (bufs s)
   /\ f_rec (b_flag (getb c (bufs s))) = true /\ content s = pre s ++ committed (getb c (bufs s)).
 Proof.
@@ -370,8 +374,8 @@ Proof.
   unfold content, pre. rewrite Hp, body_app, body_one, app_assoc. reflexivity.
 Qed.
 
-Lemma on_cur_core recs s c f :
-  Inv recs s -> curr s = Some c -> (forall b, b_flag (f b) = b_flag b) ->
+Lemma on_cur_core single recs s c f :
+  Inv single recs s -> curr s = Some c -> (forall b, b_flag (f b) = b_flag b) ->
   let s1 := on_cur f s in
   NoDup (pend s1)
   /\ (forall i, In i (pend s1) -> i < length (bufs s1) /\ f_rec (b_flag (getb i (bufs s1))) = true)
@@ -380,7 +384,7 @@ Lemma on_cur_core recs s c f :
   /\ content s1 = pre s ++ committed (f (getb c (bufs s))).
 Proof.
   intros HI Ec Hf s1.
-  destruct (cur_facts recs s c HI Ec) as [Hp [Hni [Hndo [Hl [Hfc Hcont]]]]].
+  destruct (cur_facts single recs s c HI Ec) as [Hp [Hni [Hndo [Hl [Hfc Hcont]]]]].
   destruct HI as [Hnd Hrec Hfree _ _ _ _ _].
   assert (Hcb : cur_buf s = c) by (unfold cur_buf; rewrite Ec; reflexivity).
   assert (Hpe : pend s1 = pend s) by reflexivity.
@@ -411,7 +415,7 @@ Ltac open_inv HI Epc :=
   rewrite Epc in Hcur, Hpart, Hshl, Hcont, Hrecs.
 Ltac close_fields := unfold cur_ok, partial_ok, announced, extra, inflight; simp.
 
-Lemma p_idle recs cap s : pc s = PIdle -> Inv recs s -> Inv recs (pstep cap s).
+Lemma p_idle single recs cap s : pc s = PIdle -> Inv single recs s -> Inv single recs (pstep single cap s).
 Proof.
   intros Epc HI. unfold pstep. rewrite Epc. destruct (todo s) as [|r t] eqn:Et; [exact HI|].
   open_inv HI Epc.
@@ -419,7 +423,7 @@ Proof.
   rewrite Et in Hrecs. exact Hrecs.
 Qed.
 
-Lemma p_check recs cap s r : pc s = PCheck r -> Inv recs s -> Inv recs (pstep cap s).
+Lemma p_check single recs cap s r : pc s = PCheck r -> Inv single recs s -> Inv single recs (pstep single cap s).
 Proof.
   intros Epc HI. unfold pstep. rewrite Epc. open_inv HI Epc.
   destruct (curr s) as [c|] eqn:Ec.
@@ -429,7 +433,7 @@ Proof.
   - constructor; close_fields; try assumption; try exact I.
 Qed.
 
-Lemma p_finish recs cap s r : pc s = PFinish r -> Inv recs s -> Inv recs (pstep cap s).
+Lemma p_finish single recs cap s r : pc s = PFinish r -> Inv single recs s -> Inv single recs (pstep single cap s).
 Proof.
   intros Epc HI. unfold pstep. rewrite Epc. open_inv HI Epc.
   destruct (curr s) as [c|] eqn:Ec.
@@ -442,7 +446,7 @@ Proof.
   - constructor; close_fields; try assumption; try exact I.
 Qed.
 
-Lemma p_start recs cap s r : pc s = PStart r -> Inv recs s -> Inv recs (pstep cap s).
+Lemma p_start single recs cap s r : pc s = PStart r -> Inv single recs s -> Inv single recs (pstep single cap s).
 Proof.
   intros Epc HI. unfold pstep. rewrite Epc. open_inv HI Epc.
   destruct Hcur as [c Ec].
@@ -462,12 +466,12 @@ Lemma committed_write_beyond b bs off :
   b_size b <= off -> committed (set_data (write_at off bs (b_data b)) b) = committed b.
 Proof. intro H. unfold committed. cbn. apply read_write_other. left. lia. Qed.
 
-Lemma p_time recs cap s r : pc s = PTime r -> Inv recs s -> Inv recs (pstep cap s).
+Lemma p_time single recs cap s r : pc s = PTime r -> Inv single recs s -> Inv single recs (pstep single cap s).
 Proof.
   intros Epc HI. unfold pstep. rewrite Epc. open_inv HI Epc. destruct Hcur as [c Ec].
   set (f := fun b => set_data (write_at (b_size b) (le64 (r_time r)) (b_data b)) b).
-  destruct (on_cur_core recs s c f HI Ec (fun b => eq_refl)) as [H1 [H2 [H3 [Hg Hc]]]].
-  destruct (cur_facts recs s c HI Ec) as [_ [_ [_ [_ [_ Hcs]]]]].
+  destruct (on_cur_core single recs s c f HI Ec (fun b => eq_refl)) as [H1 [H2 [H3 [Hg Hc]]]].
+  destruct (cur_facts single recs s c HI Ec) as [_ [_ [_ [_ [_ Hcs]]]]].
   constructor; close_fields; try assumption; try exact I.
   - exists c. exact Ec.
   - replace (cur_buf _) with c by (unfold cur_buf; cbn; rewrite Ec; reflexivity).
@@ -479,12 +483,12 @@ Proof.
     rewrite Hc. unfold f. rewrite committed_write_beyond by lia. rewrite <- Hcs. exact Hcb.
 Qed.
 
-Lemma p_word recs cap s r : pc s = PWord r -> Inv recs s -> Inv recs (pstep cap s).
+Lemma p_word single recs cap s r : pc s = PWord r -> Inv single recs s -> Inv single recs (pstep single cap s).
 Proof.
   intros Epc HI. unfold pstep. rewrite Epc. open_inv HI Epc. destruct Hcur as [c Ec].
   set (f := fun b => set_data (write_at (b_size b + 8) (le64 (word_of r)) (b_data b)) b).
-  destruct (on_cur_core recs s c f HI Ec (fun b => eq_refl)) as [H1 [H2 [H3 [Hg Hc]]]].
-  destruct (cur_facts recs s c HI Ec) as [_ [_ [_ [_ [_ Hcs]]]]].
+  destruct (on_cur_core single recs s c f HI Ec (fun b => eq_refl)) as [H1 [H2 [H3 [Hg Hc]]]].
+  destruct (cur_facts single recs s c HI Ec) as [_ [_ [_ [_ [_ Hcs]]]]].
   rewrite (cur_buf_eq s c Ec) in Hpart.
   constructor; close_fields; try assumption; try exact I.
   - exists c. exact Ec.
@@ -499,17 +503,23 @@ Proof.
     rewrite Hc. unfold f. rewrite committed_write_beyond by lia. rewrite <- Hcs. exact Hcb.
 Qed.
 
-Lemma p_copy recs cap s r : pc s = PCopy r -> Inv recs s -> Inv recs (pstep cap s).
+Lemma p_copy single recs cap s r : pc s = PCopy r -> Inv single recs s -> Inv single recs (pstep single cap s).
 Proof.
   intros Epc HI. unfold pstep. rewrite Epc. open_inv HI Epc. destruct Hcur as [c Ec].
-  set (f := fun b => set_data (write_at (b_size b) (r_pl r) (b_data b)) b).
-  destruct (on_cur_core recs s c f HI Ec (fun b => eq_refl)) as [H1 [H2 [H3 [Hg Hc]]]].
-  destruct (cur_facts recs s c HI Ec) as [_ [_ [_ [_ [_ Hcs]]]]].
+  set (f := fun b => set_data (write_at (b_size b + (if single then 16 else 0)) (r_pl r) (b_data b)) b).
+  destruct (on_cur_core single recs s c f HI Ec (fun b => eq_refl)) as [H1 [H2 [H3 [Hg Hc]]]].
+  destruct (cur_facts single recs s c HI Ec) as [_ [_ [_ [_ [_ Hcs]]]]].
+  rewrite (cur_buf_eq s c Ec) in Hpart.
   constructor; close_fields; try assumption; try exact I.
   - exists c. exact Ec.
   - replace (cur_buf _) with c by (unfold cur_buf; cbn; rewrite Ec; reflexivity).
-    change (bufs (with_pc _ (on_cur f s))) with (bufs (on_cur f s)). rewrite Hg. unfold f. cbn [b_size b_data b_flag set_data set_size].
-    apply read_write_same.
+    change (bufs (with_pc _ (on_cur f s))) with (bufs (on_cur f s)). rewrite Hg. unfold f.
+    cbn [b_size b_data b_flag set_data set_size].
+    destruct single.
+    + split.
+      * rewrite read_write_other by (left; lia). exact Hpart.
+      * apply read_write_same.
+    + rewrite Nat.add_0_r. apply read_write_same.
   - destruct Hcont as [bs [Hm Hcb]]. exists bs. split; [exact Hm|].
     change (content (with_pc (PBumpPl r) (on_cur f s))) with (content (on_cur f s)).
     rewrite Hc. unfold f. rewrite committed_write_beyond by lia. rewrite <- Hcs. exact Hcb.
@@ -522,52 +532,79 @@ Proof. unfold committed. cbn. apply read_at_app. Qed.
 Lemma has_pl_false r : has_pl r = false -> r_pl r = [].
 Proof. unfold has_pl. destruct (r_pl r); [reflexivity|discriminate]. Qed.
 
-Lemma p_bump recs cap s r : pc s = PBump r -> Inv recs s -> Inv recs (pstep cap s).
+Lemma p_bump single recs cap s r : pc s = PBump r -> Inv single recs s -> Inv single recs (pstep single cap s).
 Proof.
   intros Epc HI. unfold pstep. rewrite Epc. open_inv HI Epc. destruct Hcur as [c Ec].
   set (f := fun b => set_size (b_size b + 16) b).
-  destruct (on_cur_core recs s c f HI Ec (fun b => eq_refl)) as [H1 [H2 [H3 [Hg Hc]]]].
-  destruct (cur_facts recs s c HI Ec) as [_ [_ [_ [_ [_ Hcs]]]]].
+  destruct (on_cur_core single recs s c f HI Ec (fun b => eq_refl)) as [H1 [H2 [H3 [Hg Hc]]]].
+  destruct (cur_facts single recs s c HI Ec) as [_ [_ [_ [_ [_ Hcs]]]]].
   rewrite (cur_buf_eq s c Ec) in Hpart.
   assert (Hc' : content (on_cur f s) = content s ++ hdr r).
   { rewrite Hc, Hcs. unfold f. rewrite committed_grow, Hpart, app_assoc. reflexivity. }
-  destruct Hcont as [bs [Hm Hcb]]. rewrite app_nil_r in Hcb.
+  destruct Hcont as [bs [Hm Hcb]].
+  assert (Hcb' : content s = bs) by (rewrite Hcb; destruct single; apply app_nil_r).
   destruct (has_pl r) eqn:Epl.
-  - constructor; close_fields; try assumption; try exact I.
-    + exists c. exact Ec.
-    + exists bs. split; [exact Hm|].
-      change (content (with_pc (PCopy r) (on_cur f s))) with (content (on_cur f s)).
-      rewrite Hc', Hcb. reflexivity.
+  - destruct single.
+    + (* repaired code: nothing is counted yet *)
+      constructor; close_fields; try assumption; try exact I.
+      * exists c. exact Ec.
+      * replace (cur_buf _) with c by (unfold cur_buf; cbn; rewrite Ec; reflexivity). exact Hpart.
+      * exists bs. split; [exact Hm|]. change (content (with_pc (PCopy r) s)) with (content s).
+        rewrite Hcb'. symmetry. apply app_nil_r.
+    + constructor; close_fields; try assumption; try exact I.
+      * exists c. exact Ec.
+      * exists bs. split; [exact Hm|].
+        change (content (with_pc (PCopy r) (on_cur f s))) with (content (on_cur f s)).
+        rewrite Hc', Hcb'. reflexivity.
   - constructor; close_fields; try assumption; try exact I.
     + exists (bs ++ hdr r). split.
       * apply Matches_snoc; [exact Hm|]. exists []. rewrite (has_pl_false r Epl). split; reflexivity.
       * change (content (with_pc PIdle (with_done (done s ++ [r]) (on_cur f s)))) with (content (on_cur f s)).
-        rewrite Hc', Hcb, app_nil_r. reflexivity.
+        rewrite Hc', Hcb'. destruct single; symmetry; apply app_nil_r.
     + rewrite <- Hrecs, <- app_assoc. reflexivity.
 Qed.
 
-Lemma p_bumppl recs cap s r : pc s = PBumpPl r -> Inv recs s -> Inv recs (pstep cap s).
+Lemma p_bumppl single recs cap s r : pc s = PBumpPl r -> Inv single recs s -> Inv single recs (pstep single cap s).
 Proof.
   intros Epc HI. unfold pstep. rewrite Epc. open_inv HI Epc. destruct Hcur as [c Ec].
   set (n := length (r_pl r)).
-  set (f := fun b => set_size (b_size b + align8 n) b).
-  destruct (on_cur_core recs s c f HI Ec (fun b => eq_refl)) as [H1 [H2 [H3 [Hg Hc]]]].
-  destruct (cur_facts recs s c HI Ec) as [_ [_ [_ [_ [_ Hcs]]]]].
+  set (f := fun b => set_size (b_size b + (if single then 16 else 0) + align8 n) b).
+  destruct (on_cur_core single recs s c f HI Ec (fun b => eq_refl)) as [H1 [H2 [H3 [Hg Hc]]]].
+  destruct (cur_facts single recs s c HI Ec) as [_ [_ [_ [_ [_ Hcs]]]]].
   rewrite (cur_buf_eq s c Ec) in Hpart.
   set (b := getb c (bufs s)) in *.
-  set (pad := read_at (b_size b + n) (align8 n - n) (b_data b)).
-  assert (Hc' : content (on_cur f s) = content s ++ r_pl r ++ pad).
-  { rewrite Hc, Hcs. unfold f. rewrite committed_grow.
-    replace (align8 n) with (n + (align8 n - n)) at 1 by (pose proof (align8_ge n); lia).
-    rewrite read_at_app. fold n in Hpart. rewrite Hpart, app_assoc. reflexivity. }
   destruct Hcont as [bs [Hm Hcb]].
-  constructor; close_fields; try assumption; try exact I.
-  - exists (bs ++ hdr r ++ r_pl r ++ pad). split.
-    + apply Matches_snoc; [exact Hm|]. exists pad. split; [reflexivity|].
-      unfold pad. rewrite read_at_length. reflexivity.
-    + change (content (with_pc PIdle (with_done (done s ++ [r]) (on_cur f s)))) with (content (on_cur f s)).
-      rewrite Hc', Hcb, app_nil_r, <- !app_assoc. reflexivity.
-  - rewrite <- Hrecs, <- app_assoc. reflexivity.
+  destruct single.
+  - (* repaired code: header and payload become visible together *)
+    destruct Hpart as [Hh Hp]. fold n in Hp.
+    set (pad := read_at (b_size b + 16 + n) (align8 n - n) (b_data b)).
+    assert (Hc' : content (on_cur f s) = content s ++ hdr r ++ r_pl r ++ pad).
+    { rewrite Hc, Hcs. unfold f.
+      replace (b_size b + 16 + align8 n) with (b_size b + (16 + align8 n)) by lia.
+      rewrite committed_grow, read_at_app, Hh.
+      replace (align8 n) with (n + (align8 n - n)) at 1 by (pose proof (align8_ge n); lia).
+      rewrite read_at_app, Hp, <- !app_assoc. reflexivity. }
+    rewrite app_nil_r in Hcb.
+    constructor; close_fields; try assumption; try exact I.
+    + exists (bs ++ hdr r ++ r_pl r ++ pad). split.
+      * apply Matches_snoc; [exact Hm|]. exists pad. split; [reflexivity|].
+        unfold pad. rewrite read_at_length. reflexivity.
+      * change (content (with_pc PIdle (with_done (done s ++ [r]) (on_cur f s)))) with (content (on_cur f s)).
+        rewrite Hc', Hcb, app_nil_r. reflexivity.
+    + rewrite <- Hrecs, <- app_assoc. reflexivity.
+  - fold n in Hpart.
+    set (pad := read_at (b_size b + n) (align8 n - n) (b_data b)).
+    assert (Hc' : content (on_cur f s) = content s ++ r_pl r ++ pad).
+    { rewrite Hc, Hcs. unfold f. rewrite Nat.add_0_r, committed_grow.
+      replace (align8 n) with (n + (align8 n - n)) at 1 by (pose proof (align8_ge n); lia).
+      rewrite read_at_app, Hpart, app_assoc. reflexivity. }
+    constructor; close_fields; try assumption; try exact I.
+    + exists (bs ++ hdr r ++ r_pl r ++ pad). split.
+      * apply Matches_snoc; [exact Hm|]. exists pad. split; [reflexivity|].
+        unfold pad. rewrite read_at_length. reflexivity.
+      * change (content (with_pc PIdle (with_done (done s ++ [r]) (on_cur f s)))) with (content (on_cur f s)).
+        rewrite Hc', Hcb, app_nil_r, <- !app_assoc. reflexivity.
+    + rewrite <- Hrecs, <- app_assoc. reflexivity.
 Qed.
 
 Lemma NoDup_snoc {A} (l : list A) x : NoDup l -> ~ In x l -> NoDup (l ++ [x]).
@@ -605,12 +642,12 @@ Proof.
     + rewrite getb_overflow by (rewrite removelast_length; exact Hge). reflexivity.
 Qed.
 
-Lemma p_zero recs cap s r : pc s = PZero r -> Inv recs s -> Inv recs (pstep cap s).
+Lemma p_zero single recs cap s r : pc s = PZero r -> Inv single recs s -> Inv single recs (pstep single cap s).
 Proof.
   intros Epc HI. unfold pstep. rewrite Epc. open_inv HI Epc. destruct Hcur as [c Ec].
   rewrite (cur_buf_eq s c Ec) in *.
-  destruct (on_cur_core recs s c (set_size 0) HI Ec (fun b => eq_refl)) as [H1 [H2 [H3 [Hg Hc]]]].
-  destruct (cur_facts recs s c HI Ec) as [Hp [_ [_ [_ [_ Hcs]]]]].
+  destruct (on_cur_core single recs s c (set_size 0) HI Ec (fun b => eq_refl)) as [H1 [H2 [H3 [Hg Hc]]]].
+  destruct (cur_facts single recs s c HI Ec) as [Hp [_ [_ [_ [_ Hcs]]]]].
   assert (Hl1 : bufs (on_cur (set_size 0) s) = upd c (set_size 0) (bufs s)).
   { unfold on_cur. simp. rewrite (cur_buf_eq s c Ec). reflexivity. }
   rewrite Hl1 in *.
@@ -632,7 +669,7 @@ Proof.
     destruct (S1 c Hcin) as [_ Sb]. rewrite Sb, Hg. reflexivity.
 Qed.
 
-Lemma p_pick recs cap s r : pc s = PPick r -> Inv recs s -> Inv recs (pstep cap s).
+Lemma p_pick single recs cap s r : pc s = PPick r -> Inv single recs s -> Inv single recs (pstep single cap s).
 Proof.
   intros Epc HI. unfold pstep. rewrite Epc. open_inv HI Epc.
   set (i := find_free (bufs s)).
@@ -685,7 +722,7 @@ Proof.
   - rewrite Hshl. unfold curl. rewrite Hcur. reflexivity.
 Qed.
 
-Lemma pstep_inv recs cap s : Inv recs s -> Inv recs (pstep cap s).
+Lemma pstep_inv single recs cap s : Inv single recs s -> Inv single recs (pstep single cap s).
 Proof.
   intro HI. destruct (pc s) eqn:Epc.
   - apply p_idle; assumption.
@@ -701,7 +738,7 @@ Proof.
   - eapply p_bumppl; eassumption.
 Qed.
 
-Lemma step_inv recs cap l s : Inv recs s -> Inv recs (step cap l s).
+Lemma step_inv single recs cap l s : Inv single recs s -> Inv single recs (step single cap l s).
 Proof.
   intro HI. destruct l; cbn.
   - apply pstep_inv. exact HI.
@@ -709,7 +746,7 @@ Proof.
   - apply wstep_inv. exact HI.
 Qed.
 
-Lemma run_inv recs cap sched s : Inv recs s -> Inv recs (run cap sched s).
+Lemma run_inv single recs cap sched s : Inv single recs s -> Inv single recs (run single cap sched s).
 Proof.
   revert s. induction sched as [|l t IH]; intros s HI; cbn; [exact HI|].
   apply IH. apply step_inv. exact HI.
@@ -724,15 +761,15 @@ Proof.
   destruct (f_rec (b_flag (getb i (bufs s))) && negb (b_size (getb i (bufs s)) =? 0)); cbn; auto.
 Qed.
 
-Lemma drain_spec recs n s :
-  Inv recs s -> n = length (chan s) ->
+Lemma drain_spec single recs n s :
+  Inv single recs s -> n = length (chan s) ->
   let s1 := iter n rstep s in
-  Inv recs s1 /\ content s1 = content s /\ chan s1 = [] /\ pc s1 = pc s /\ done s1 = done s /\ todo s1 = todo s.
+  Inv single recs s1 /\ content s1 = content s /\ chan s1 = [] /\ pc s1 = pc s /\ done s1 = done s /\ todo s1 = todo s.
 Proof.
   revert s. induction n as [|n IH]; intros s HI Hn; cbn.
   - split; [exact HI|]. split; [reflexivity|]. split; [|auto].
     destruct (chan s); [reflexivity|discriminate].
-  - destruct (rstep_inv recs s HI) as [HI' Hc]. destruct (rstep_frame s) as [F1 [F2 [F3 F4]]].
+  - destruct (rstep_inv single recs s HI) as [HI' Hc]. destruct (rstep_frame s) as [F1 [F2 [F3 F4]]].
     assert (Hn' : n = length (chan (rstep s))).
     { rewrite F1. destruct (chan s); cbn in *; lia. }
     destruct (IH (rstep s) HI' Hn') as [A [B [C [D [E F]]]]].
@@ -740,8 +777,8 @@ Proof.
     split; [rewrite D; exact F2|]. split; [rewrite E; exact F3 | rewrite F; exact F4].
 Qed.
 
-Lemma announced_cases recs s :
-  Inv recs s ->
+Lemma announced_cases single recs s :
+  Inv single recs s ->
   (announced s = [] /\ body (bufs s) (curl s) = []) \/ (exists c, announced s = [c] /\ curr s = Some c).
 Proof.
   intros [_ _ _ Hcur Hpart _ _ _]. unfold announced, curl, cur_ok, partial_ok, cur_buf in *.
@@ -757,8 +794,8 @@ Proof.
   intro Hin. apply Hx. apply in_or_app. left. exact Hin.
 Qed.
 
-Lemma flush_spec recs s :
-  Inv recs s -> chan s = [] ->
+Lemma flush_spec single recs s :
+  Inv single recs s -> chan s = [] ->
   let s2 := flush_shmem_list s in
   bufs s2 = bufs s /\ file s2 = file s /\ NoDup (wl s2) /\ body (bufs s) (wl s2) = body (bufs s) (pend s).
 Proof.
@@ -766,7 +803,7 @@ Proof.
   rewrite Hch in Hshl. cbn in Hshl.
   assert (Hp : pend s = wl s ++ curl s) by (unfold pend, others; rewrite Hch; cbn; rewrite app_nil_r; reflexivity).
   unfold flush_shmem_list. rewrite Hshl.
-  destruct (announced_cases recs s HI) as [[Ha Hb]|[c [Ha Ec]]]; rewrite Ha; cbn [fold_left]; simp.
+  destruct (announced_cases single recs s HI) as [[Ha Hb]|[c [Ha Ec]]]; rewrite Ha; cbn [fold_left]; simp.
   - split; [reflexivity|]. split; [reflexivity|]. split.
     + rewrite Hp in Hnd. apply NoDup_app_l in Hnd. exact Hnd.
     + rewrite Hp, body_app, Hb, app_nil_r. reflexivity.
@@ -793,46 +830,43 @@ Proof.
     apply body_upd_notin. exact Hni.
 Qed.
 
-Lemma finish_file recs s : Inv recs s -> file (finish s) = content s.
+Lemma finish_file single recs s : Inv single recs s -> file (finish s) = content s.
 Proof.
   intro HI. unfold finish, drain.
-  destruct (drain_spec recs (length (chan s)) s HI eq_refl) as [HI1 [Hc1 [Hch1 _]]].
+  destruct (drain_spec single recs (length (chan s)) s HI eq_refl) as [HI1 [Hc1 [Hch1 _]]].
   set (s1 := iter (length (chan s)) rstep s) in *.
-  destruct (flush_spec recs s1 HI1 Hch1) as [Hb [Hf [Hnd Hbody]]].
+  destruct (flush_spec single recs s1 HI1 Hch1) as [Hb [Hf [Hnd Hbody]]].
   set (s2 := flush_shmem_list s1) in *.
   unfold record_remaining. rewrite write_all by exact Hnd. simp.
   rewrite Hf, Hb, Hbody, <- Hc1. reflexivity.
 Qed.
 
 (* ------------------------------------------------------------------ the theorems *)
-Theorem prefix_general cap recs sched :
-  let s := run cap sched (init recs) in
+Theorem prefix_general single cap recs sched :
+  let s := run single cap sched (init recs) in
   exists bs rest,
-    Matches (done s) bs /\ file (finish s) = bs ++ extra s /\ recs = done s ++ rest.
+    Matches (done s) bs /\ file (finish s) = bs ++ extra single s /\ recs = done s ++ rest.
 Proof.
-  intro s. pose proof (run_inv recs cap sched (init recs) (init_inv recs)) as HI. fold s in HI.
-  rewrite (finish_file recs s HI).
+  intro s. pose proof (run_inv single recs cap sched (init recs) (init_inv single recs)) as HI. fold s in HI.
+  rewrite (finish_file single recs s HI).
   destruct HI as [_ _ _ _ _ _ [bs [Hm Hc]] Hrecs].
   exists bs, (inflight s ++ todo s). split; [exact Hm|]. split; [exact Hc|]. symmetry. exact Hrecs.
 Qed.
 
-Lemma extra_window s : in_window s = false -> extra s = [].
-Proof. unfold in_window, extra. destruct (pc s); try reflexivity; discriminate. Qed.
-
-Lemma firstn_app_exact {A} (a b : list A) : firstn (length a) (a ++ b) = a.
-Proof. apply firstn_exact. Qed.
+Lemma extra_window single s : in_window single s = false -> extra single s = [].
+Proof. unfold in_window, extra. destruct single; [reflexivity|]. destruct (pc s); try reflexivity; discriminate. Qed.
 
 (* outside the window: the file is exactly the sequence of the completely stored records,
    which is a prefix of what the thread was going to write *)
-Theorem prefix_outside_window cap recs sched :
-  let s := run cap sched (init recs) in
-  in_window s = false ->
+Theorem prefix_outside_window single cap recs sched :
+  let s := run single cap sched (init recs) in
+  in_window single s = false ->
   match_recs (done s) (file (finish s)) = true
   /\ (exists rest, recs = done s ++ rest)
   /\ ok_prefix recs (file (finish s)) = true.
 Proof.
-  intros s Hw. destruct (prefix_general cap recs sched) as [bs [rest [Hm [Hf Hr]]]]. fold s in Hm, Hf, Hr.
-  rewrite (extra_window s Hw), app_nil_r in Hf.
+  intros s Hw. destruct (prefix_general single cap recs sched) as [bs [rest [Hm [Hf Hr]]]]. fold s in Hm, Hf, Hr.
+  rewrite (extra_window single s Hw), app_nil_r in Hf.
   assert (Hmr : match_recs (done s) (file (finish s)) = true) by (rewrite Hf; apply Matches_match_recs; exact Hm).
   split; [exact Hmr|]. split; [exists rest; exact Hr|].
   assert (Hlen : length recs = length (done s) + length rest).
@@ -844,28 +878,37 @@ Proof.
   - rewrite Hfn. exact Hmr.
 Qed.
 
+(* the repaired code (one size update per record) has no window at all *)
+Theorem prefix_fixed cap recs sched :
+  let s := run true cap sched (init recs) in
+  match_recs (done s) (file (finish s)) = true
+  /\ (exists rest, recs = done s ++ rest)
+  /\ ok_prefix recs (file (finish s)) = true.
+Proof. intro s. apply (prefix_outside_window true cap recs sched). reflexivity. Qed.
+
 (* inside the window: the same, followed by the bare 16-byte header of the record in flight *)
 Theorem window_exact cap recs sched :
-  let s := run cap sched (init recs) in
-  in_window s = true ->
+  let s := run false cap sched (init recs) in
+  in_window false s = true ->
   exists r bs rest, (pc s = PCopy r \/ pc s = PBumpPl r) /\
     Matches (done s) bs /\ file (finish s) = bs ++ hdr r /\ recs = done s ++ r :: rest.
 Proof.
-  intros s Hw. pose proof (run_inv recs cap sched (init recs) (init_inv recs)) as HI. fold s in HI.
-  rewrite (finish_file recs s HI).
+  intros s Hw. pose proof (run_inv false recs cap sched (init recs) (init_inv false recs)) as HI. fold s in HI.
+  rewrite (finish_file false recs s HI).
   destruct HI as [_ _ _ _ _ _ [bs [Hm Hc]] Hrecs].
-  unfold in_window in Hw. unfold extra in Hc. unfold inflight in Hrecs.
+  unfold in_window in Hw. unfold extra in Hc. unfold inflight in Hrecs. cbn [negb andb] in Hw.
   destruct (pc s) as [| | | | | | | | |r|r] eqn:Epc; try discriminate;
     exists r, bs, (todo s); (split; [auto|]); (split; [exact Hm|]); (split; [exact Hc|]); symmetry; exact Hrecs.
 Qed.
 
 (* a complete run (every record stored): the file holds all records *)
-Theorem complete_run cap recs sched :
-  let s := run cap sched (init recs) in
+Theorem complete_run single cap recs sched :
+  let s := run single cap sched (init recs) in
   pc s = PIdle -> todo s = [] -> match_recs recs (file (finish s)) = true.
 Proof.
-  intros s Hpc Ht. pose proof (run_inv recs cap sched (init recs) (init_inv recs)) as HI. fold s in HI.
-  destruct (prefix_outside_window cap recs sched) as [Hm _]; [unfold in_window; fold s; rewrite Hpc; reflexivity|].
+  intros s Hpc Ht. pose proof (run_inv single recs cap sched (init recs) (init_inv single recs)) as HI. fold s in HI.
+  destruct (prefix_outside_window single cap recs sched) as [Hm _].
+  { unfold in_window. fold s. rewrite Hpc. apply andb_false_r. }
   fold s in Hm. destruct HI as [_ _ _ _ _ _ _ Hrecs]. unfold inflight in Hrecs. rewrite Hpc, Ht in Hrecs.
   cbn in Hrecs. rewrite app_nil_r in Hrecs. rewrite <- Hrecs. exact Hm.
 Qed.
@@ -876,7 +919,13 @@ Definition w_r2 : rec := {| r_time := 1100; r_type := 1; r_depth := 0; r_addr :=
 Definition w_recs := [w_r1; w_r2].
 Definition w_sched := repeat LP 5.       (* PIdle, PCheck, PTime, PWord, PBump *)
 Lemma window_witness :
-  in_window (run 4080 w_sched (init w_recs)) = true
-  /\ ok_prefix w_recs (file (finish (run 4080 w_sched (init w_recs)))) = false
-  /\ file (finish (run 4080 w_sched (init w_recs))) = hdr w_r1.
+  in_window false (run false 4080 w_sched (init w_recs)) = true
+  /\ ok_prefix w_recs (file (finish (run false 4080 w_sched (init w_recs)))) = false
+  /\ file (finish (run false 4080 w_sched (init w_recs))) = hdr w_r1.
+Proof. vm_compute. repeat split; reflexivity. Qed.
+(* the same schedule on the repaired code *)
+Lemma window_witness_fixed :
+  file (finish (run true 4080 w_sched (init w_recs))) = []
+  /\ ok_prefix w_recs (file (finish (run true 4080 (repeat LP 7) (init w_recs)))) = true
+  /\ length (file (finish (run true 4080 (repeat LP 7) (init w_recs)))) = 24.
 Proof. vm_compute. repeat split; reflexivity. Qed.
